@@ -520,6 +520,9 @@ func buildEvidence(m *Result, prop, tier string, seed int64, wall float64, viola
 	if m.Exhaustive {
 		cov["exhaustive"] = true
 	}
+	if m.Assumptions == nil {
+		m.Assumptions = []string{}
+	}
 	return map[string]any{
 		"property_id": prop, "tier": tier, "seed": seed, "level": level,
 		"coverage": cov, "assumptions": m.Assumptions, "wall_s": wall, "violations": violations,
